@@ -78,6 +78,12 @@ Bases ==
                                    [m |-> "on_conflict", names |-> <<"a">>], [m |-> "do_nothing"]>> >>,
         <<"upsert-select", "T2", <<[m |-> "into", src |-> "T1"], [m |-> "from_", src |-> "T2"], Sel(<<Fld("T2", "a"), Fld("T2", "b"), Fld("T2", "c")>>),
                                    [m |-> "on_conflict", names |-> <<"a">>], [m |-> "do_update", col |-> "b", val |-> Num("4")]>> >>,
+        \* where() BEFORE on_conflict is the SELECT's WHERE (after it, it is routed to the conflict clauses, where T2 is not visible)
+        <<"upsert-select", "T2", <<[m |-> "into", src |-> "T1"], [m |-> "from_", src |-> "T2"], Sel(<<Fld("T2", "a"), Fld("T2", "b"), Fld("T2", "c")>>),
+                                   Where(Bin(">", Fld("T2", "b"), Num("0"))), [m |-> "on_conflict", names |-> <<"a">>], [m |-> "do_nothing"]>> >>,
+        <<"upsert-select", "T2", <<[m |-> "into", src |-> "T1"], [m |-> "from_", src |-> "T2"], Sel(<<Fld("T2", "a"), Fld("T2", "b"), Fld("T2", "c")>>),
+                                   Where(Bin(">", Fld("T2", "b"), Num("0"))), [m |-> "on_conflict", names |-> <<"a">>],
+                                   [m |-> "do_update", col |-> "b", val |-> Bin("+", Fld("T1", "b"), Num("1"))]>> >>,
         <<"update", "T1", <<[m |-> "update", src |-> "T1"]>> >>, <<"update", "A3", <<[m |-> "update", src |-> "A3"]>> >>,
         <<"update-from", "T1", <<[m |-> "update", src |-> "T1"], [m |-> "from_", src |-> "T2"], Where(Bin("=", Fld("T1", "a"), Fld("T2", "a")))>> >>,
         <<"update-join", "T1", <<[m |-> "update", src |-> "T1"], JoinOn("T1", "T2", "")>> >>,
@@ -116,5 +122,5 @@ Next == /\ units < MaxUnits
         /\ units' = units + 1 /\ UNCHANGED <<kind, src>>
 St == Fold(Empty, hist)
 NoRaise == \A k \in DOMAIN hist : RaiseSeq(Empty, hist)[k] = ""
-Emit == ~(Complete(St) /\ NoRaise /\ RenderRaises(St, "sqlite") = "") \/ PrintT("P " \o ToJson([kind |-> kind, hist |-> hist, ref |-> RefFull(St), suspects |-> Suspects(St)]))
+Emit == ~(Complete(St) /\ NoRaise /\ RenderRaises(St, "sqlite") = "" /\ Meaningful(St)) \/ PrintT("P " \o ToJson([kind |-> kind, hist |-> hist, ref |-> RefFull(St), suspects |-> Suspects(St)]))
 =============================================================================
